@@ -101,6 +101,27 @@ fn extra_cases(thorough: bool) -> Vec<(String, rosu_pp::Beatmap)> {
             }
         }
     }
+    // long periodic rhythms (look-back windows of 64 / 128 objects): six even hits, then every motif of four gaps over
+    // {100, 200, 400} ms repeated 30 times (126 objects), taiko and osu!
+    for mode in [1u8, 0] {
+        let gaps = [100u32, 200, 400];
+        for code in 0..3u32.pow(4) {
+            let g: Vec<u32> = (0..4).map(|i| gaps[((code / 3u32.pow(i)) % 3) as usize]).collect();
+            for even in gaps {
+                if mode == 0 && even != 200 {
+                    continue;
+                }
+                // (colours irregular: a colour skill that only looks at colour changes must stay busy all along)
+                let sound = |i: usize| if (i * i) % 7 < 3 { 8 } else { 0 };
+                let mut objs: Vec<vh::gen::Obj> = (0..6).map(|i| vh::gen::Obj { kind: Kind::Circle, gap: if i == 0 { 0 } else { even }, pos: PosK::Far, sound: sound(i), col: 0 }).collect();
+                for k in 0..120usize {
+                    objs.push(vh::gen::Obj { kind: Kind::Circle, gap: if k == 0 { even } else { g[(k - 1) % 4] }, pos: PosK::Far, sound: sound(k + 6), col: 0 });
+                }
+                let spec = MapSpec::new(mode, objs);
+                v.push((format!("six hits {even} ms apart + motif {g:?} x30, mode {mode}"), spec.decode()));
+            }
+        }
+    }
     // silences longer than 2^14 (and 2^15) strain sections between two bursts: run-length limits of a strain list
     for mode in 0..4u8 {
         for silence in [7_000_000u32, 14_000_000] {
